@@ -15,7 +15,10 @@ LEVEL_TEXT = ("PE.get_statistic (7 statistics), PE.change_unit (all 10 x 10 orde
               "seven statistics are stored, the result's error array is the metric's, label/title name metric, relation and "
               "unit; a unit change multiplies every value by the exact factor and updates the unit, refused conversions leave "
               "values and unit untouched.  The inequalities between the statistics are textbook consequences of the definitions "
-              "(not derived here); companion arrays of ape()/rpe(): bounded stand-in.")
+              "(not derived here).  Companion arrays: ape() stores the processed trajectories' own timestamp / distance arrays, "
+              "rpe() the arrays of the trajectories reduced to pose 0 + pair ends without their first entry (wiring contracts), "
+              "and RPE.process_data keeps values and end indices in step for the point-distance relations incl. skipped zero "
+              "reference distances; end-to-end results: bounded stand-in.")
 LEVEL_NOTE = ("floats as reals; trusted: numpy mean/sum/std(ddof)/median/min/max/power, math.sqrt, rad2deg/deg2rad as x*180/pi, "
               "x*pi/180; sums are ghost prefix sums; min <= mean <= rmse <= max and rmse^2 = mean^2 + std^2 are checked numerically")
 SIDECARS = ["contracts.lie_algebra", "contracts.geometry", "contracts.filters", "contracts.metrics", "contracts.overwrite",
